@@ -474,6 +474,12 @@ class LazyStackedTensorDict(TensorDictBase):
     @property
     @cache  # noqa
     def names(self):
+        if not self.tensordicts:
+            # an empty stack (e.g. what a mask that keeps nothing returns): there is
+            # no member to read the names from
+            names = [None] * max(len(self.batch_size) - 1, 0)
+            names.insert(self.stack_dim, self._td_dim_name)
+            return names
         names = list(self.tensordicts[0].names)
         for td in self.tensordicts[1:]:
             if names != td.names:
